@@ -180,3 +180,225 @@ Proof.
 Qed.
 
 End Guard.
+
+(* ------------------------------------------------------------------ the cards of the fragment *)
+Section Cards.
+Variable FT : ftab.
+Variable sg : sig9.
+Hypothesis sg_ft : forall name n, sm_find name sg = Some n -> exists h ar, sm_find name FT = Some (h, ar).
+
+Lemma emitsL_args9 Ln l : forallb expr_f1 l = true -> forall i,
+  emitsL Ln Ln ((fix subexpr (l : list card) (i : N) {struct l} : M unit :=
+             match l with
+             | [] => ret tt
+             | x :: r => with_sub i (process_card x) ;; subexpr r (i + 1)
+             end) l i) (flat_map (expr_gnames Ln) l) (fun T _ => code_args9 T Ln l).
+Proof.
+  induction l as [|x r IH]; intros Hc i.
+  - apply emitsL_nop. intros s s' E. injection E as <-. repeat split.
+  - cbn [forallb] in Hc. apply andb_true_iff in Hc. destruct Hc as [H1 H2].
+    eapply emitsL_ext.
+    + apply emitsL_seq; [apply emitsL_with_sub, emitsL_expr, H1 | apply (IH H2 (i + 1))].
+    + intros y Hy. exact Hy.
+    + intros T b. reflexivity.
+Qed.
+
+Definition call_tail (name : str) : M unit :=
+  do m <- resolve_function name ;;
+  push_instr (IFunctionPointer (fm_handle m) (fm_arity m)) ;;
+  push_instr ICallFunction.
+
+Lemma emitsL_call_tail Ln name h ar :
+  sm_find name FT = Some (h, ar) ->
+  emitsL Ln Ln (gd FT (call_tail name)) [] (fun _ _ => [IFunctionPointer h ar; ICallFunction]).
+Proof.
+  intros Hf s s' Hc E. unfold gd in E. destruct (jb FT (cs_jump s)) eqn:Ej; [|discriminate].
+  pose proof (jb_find _ _ _ _ _ Ej Hf) as Hj.
+  assert (Hres : resolve_function name s = ROk {| fm_handle := h; fm_arity := ar |} s).
+  { unfold resolve_function, bind, get. cbv zeta. rewrite Hj. reflexivity. }
+  unfold call_tail in E. apply bind_ok in E. destruct E as (m & s1 & E1 & E2).
+  rewrite Hres in E1. injection E1 as <- <-. cbn [fm_handle fm_arity] in E2.
+  assert (H2 : emitsL Ln Ln (push_instr (IFunctionPointer h ar) ;; push_instr ICallFunction) []
+                      (fun _ _ => [IFunctionPointer h ar; ICallFunction])).
+  { eapply emitsL_ext; [apply emitsL_seq; apply emitsL_push | intros x Hx; exact Hx | intros T b; reflexivity]. }
+  exact (H2 s s' Hc E2).
+Qed.
+
+Lemma emitsG_rhs Ln r : rhs9 sg r = true ->
+  emitsL Ln Ln (gd FT (process_card r)) (rhs_gnames9 Ln r) (fun T _ => code_rhs9 T FT Ln r).
+Proof.
+  intros Hr.
+  assert (Hex : expr_f1 r = true ->
+                emitsL Ln Ln (gd FT (process_card r)) (expr_gnames Ln r) (fun T _ => code_expr5 T Ln r)).
+  { intros He. eapply emitsL_le9; [apply emitsL_expr, He | apply le9_gd]. }
+  destruct r; try (exact (Hex Hr)).
+  cbn [rhs9] in Hr. apply andb_true_iff in Hr. destruct Hr as [Ha Hs].
+  destruct (sm_find name sg) as [k|] eqn:Es; [|discriminate].
+  destruct (sg_ft _ _ Es) as (h & ar & Hf).
+  eapply emitsL_ext.
+  - eapply emitsL_le9; cycle 1.
+    { cbn [process_card]. apply le9_seq; [apply le9_gd | apply pj_card_label|].
+      apply le9_seq; [apply le9_gd | apply pj_subexpr | apply le9_refl]. }
+    apply emitsL_seq; [apply emitsL_nop, keepL_card_label|].
+    apply emitsL_seq; [apply (emitsL_args9 Ln args Ha 0) | apply (emitsL_call_tail Ln name h ar Hf)].
+  - intros x Hx. cbn [rhs_gnames9 app] in *. rewrite app_nil_r. exact Hx.
+  - intros T b. cbn [code_rhs9 app]. rewrite Hf. reflexivity.
+Qed.
+
+Lemma emitsG_set_global Ln g r : is_empty g = false -> rhs9 sg r = true ->
+  emitsL Ln Ln (gd FT (process_card (CSetGlobalVar g r))) (rhs_gnames9 Ln r ++ [g])
+         (fun T _ => code_rhs9 T FT Ln r ++ [ISetGlobalVar (idT T g)]).
+Proof.
+  intros Hne Hr. eapply emitsL_ext.
+  - eapply emitsL_le9; cycle 1.
+    { cbn [process_card]. rewrite Hne. apply le9_seq; [apply le9_gd | apply pj_card_label|].
+      apply le9_seq_last, le9_with_sub, le9_refl. }
+    apply emitsL_seq; [apply emitsL_nop, keepL_card_label|].
+    apply emitsL_seq; [apply emitsL_with_sub, (emitsG_rhs Ln r Hr) | apply (emitsL_global Ln g ISetGlobalVar)].
+  - intros x Hx. exact Hx.
+  - intros T b. reflexivity.
+Qed.
+
+Lemma emitsG_set_local Ln x r i : var_ok x = true -> rhs9 sg r = true -> slot Ln x = Some i ->
+  emitsL Ln Ln (gd FT (process_card (CSetVar x r))) (rhs_gnames9 Ln r)
+         (fun T _ => code_rhs9 T FT Ln r ++ [ISetLocalVar (N.of_nat i)]).
+Proof.
+  intros Hx Hr Hi. unfold var_ok in Hx. apply andb_true_iff in Hx. destruct Hx as [Hne Hdot].
+  apply negb_true_iff in Hne, Hdot.
+  eapply emitsL_ext.
+  - eapply emitsL_le9; cycle 1.
+    { cbn [process_card]. rewrite (rsplit_no_dot _ Hdot). apply le9_seq; [apply le9_gd | apply pj_card_label|].
+      apply le9_seq_last, le9_with_sub, le9_refl. }
+    apply emitsL_seq; [apply emitsL_nop, keepL_card_label|].
+    apply emitsL_seq; [apply emitsL_with_sub, (emitsG_rhs Ln r Hr)|].
+    apply emitsL_bind_resolve; [exact Hne|]. rewrite Hi. apply emitsL_push.
+  - intros y Hy. cbn [app] in *. rewrite app_nil_r. exact Hy.
+  - intros T b. cbn [app]. reflexivity.
+Qed.
+
+Lemma emitsG_return Ln r : rhs9 sg r = true ->
+  emitsL Ln Ln (gd FT (process_card (CUn UReturn r))) (rhs_gnames9 Ln r)
+         (fun T _ => code_rhs9 T FT Ln r ++ [IReturn]).
+Proof.
+  intros Hr. eapply emitsL_ext.
+  - eapply emitsL_le9; cycle 1.
+    { cbn [process_card unop_instr]. apply le9_seq; [apply le9_gd | apply pj_card_label|].
+      apply le9_seq_last, le9_with_sub, le9_refl. }
+    apply emitsL_seq; [apply emitsL_nop, keepL_card_label|].
+    apply emitsL_seq; [apply emitsL_with_sub, (emitsG_rhs Ln r Hr) | apply emitsL_push].
+  - intros y Hy. cbn [app] in *. rewrite app_nil_r. exact Hy.
+  - intros T b. cbn [app]. reflexivity.
+Qed.
+
+Lemma emitsG_declare Ln x r : var_ok x = true -> rhs9 sg r = true -> lmem x Ln = false ->
+  emitsL Ln (x :: Ln) (gd FT (process_card (CSetVar x r))) (rhs_gnames9 Ln r)
+         (fun T _ => code_rhs9 T FT Ln r ++ [ISetLocalVar (N.of_nat (length Ln))]).
+Proof.
+  intros Hx Hr Hm. unfold var_ok in Hx. apply andb_true_iff in Hx. destruct Hx as [Hne Hdot].
+  apply negb_true_iff in Hne, Hdot.
+  eapply emitsL_le9; cycle 1.
+  { cbn [process_card]. rewrite (rsplit_no_dot _ Hdot). apply le9_seq; [apply le9_gd | apply pj_card_label|].
+    apply le9_seq_last, le9_with_sub, le9_refl. }
+  intros s s' Hc E.
+  pose proof (emitsL_seq_gen Ln Ln (x :: Ln) _ _ _ _ _ _
+                (emitsL_nop Ln _ keepL_card_label)
+                (emitsL_seq_gen Ln Ln (x :: Ln) _ _ _ _ _ _
+                   (emitsL_with_sub Ln 0 _ _ _ (emitsG_rhs Ln r Hr))
+                   (emitsL_declare_tail Ln x Hne Hm))) as H.
+  destruct (H s s' Hc E) as (A & B & C & D). split; [exact A|]. split; [exact B|]. split.
+  - intros n Hn. apply C. cbn [app]. rewrite app_nil_r. exact Hn.
+  - intros T HT. rewrite (D T HT). cbn [app]. reflexivity.
+Qed.
+
+Lemma emitsG_stmt ret Ln c : stmt9 sg ret Ln c = true ->
+  emitsL Ln Ln (gd FT (process_card c)) (stmt_gnames9 Ln c) (fun T b => code9 T FT Ln b c).
+Proof.
+  induction c using card_ind'; intros Hc; cbn [stmt9] in Hc; try discriminate Hc.
+  - (* IfTrue / IfFalse *)
+    destruct op; try discriminate Hc; apply andb_true_iff in Hc; destruct Hc as [He Hb].
+    + eapply emitsL_ext.
+      * eapply emitsL_le9; cycle 1.
+        { cbn [process_card]. apply le9_seq; [apply le9_gd | apply pj_card_label|].
+          apply le9_seq; [apply le9_gd | apply pj_with_sub, pj_card|].
+          apply le9_seq; [apply le9_gd | apply pj_push_sub|].
+          apply le9_seq_last, le9_if_then, le9_refl. }
+        apply emitsL_seq; [apply emitsL_nop, keepL_card_label|].
+        apply emitsL_seq; [apply emitsL_with_sub, emitsL_expr, He|].
+        apply emitsL_seq; [apply emitsL_nop, keepL_push_sub|].
+        apply emitsL_seq; [apply (emitsL_if_then Ln IGotoIfFalse); [left; reflexivity | apply IHc2, Hb]|].
+        apply emitsL_nop, keepL_pop_sub.
+      * intros x Hx. cbn [stmt_gnames9 app] in *. rewrite app_nil_r. exact Hx.
+      * intros T b. cbn [code9 app bytes]. rewrite ?N.add_0_r, ?app_nil_r. reflexivity.
+    + eapply emitsL_ext.
+      * eapply emitsL_le9; cycle 1.
+        { cbn [process_card]. apply le9_seq; [apply le9_gd | apply pj_card_label|].
+          apply le9_seq; [apply le9_gd | apply pj_with_sub, pj_card|].
+          apply le9_seq; [apply le9_gd | apply pj_push_sub|].
+          apply le9_seq_last, le9_if_then, le9_refl. }
+        apply emitsL_seq; [apply emitsL_nop, keepL_card_label|].
+        apply emitsL_seq; [apply emitsL_with_sub, emitsL_expr, He|].
+        apply emitsL_seq; [apply emitsL_nop, keepL_push_sub|].
+        apply emitsL_seq; [apply (emitsL_if_then Ln IGotoIfTrue); [right; reflexivity | apply IHc2, Hb]|].
+        apply emitsL_nop, keepL_pop_sub.
+      * intros x Hx. cbn [stmt_gnames9 app] in *. rewrite app_nil_r. exact Hx.
+      * intros T b. cbn [code9 app bytes]. rewrite ?N.add_0_r, ?app_nil_r. reflexivity.
+  - (* Return *)
+    destruct op; try discriminate Hc. apply andb_true_iff in Hc. destruct Hc as [_ Hr].
+    exact (emitsG_return Ln c Hr).
+  - (* IfElse *)
+    destruct op; try discriminate Hc. apply andb_true_iff in Hc. destruct Hc as [Hc Hb].
+    apply andb_true_iff in Hc. destruct Hc as [He Ha].
+    eapply emitsL_ext.
+    + eapply emitsL_le9; cycle 1.
+      { cbn [process_card]. apply le9_seq; [apply le9_gd | apply pj_card_label|].
+        apply le9_seq; [apply le9_gd | apply pj_with_sub, pj_card|].
+        apply le9_seq; [apply le9_gd | apply pj_push_sub|].
+        apply (le9_if_else FT (process_card c2) _ (process_card c3) _); [apply le9_refl | apply pj_card | apply le9_refl]. }
+      apply emitsL_seq; [apply emitsL_nop, keepL_card_label|].
+      apply emitsL_seq; [apply emitsL_with_sub, emitsL_expr, He|].
+      apply emitsL_seq; [apply emitsL_nop, keepL_push_sub|].
+      apply emitsL_if_else; [apply IHc2, Ha | apply IHc3, Hb].
+    + intros x Hx. cbn [stmt_gnames9 app] in *. exact Hx.
+    + intros T b. cbn [code9 app bytes]. unfold code_if_else. rewrite ?N.add_0_r. reflexivity.
+  - (* SetGlobalVar *)
+    apply andb_true_iff in Hc. destruct Hc as [Hne Hr]. apply negb_true_iff in Hne.
+    exact (emitsG_set_global Ln n c Hne Hr).
+  - (* SetVar of an existing local *)
+    apply andb_true_iff in Hc. destruct Hc as [Hc Hr]. apply andb_true_iff in Hc. destruct Hc as [Hx Hm].
+    unfold lmem in Hm. destruct (find_first n Ln) as [p|] eqn:Ef; [|discriminate].
+    eapply emitsL_ext.
+    + apply (emitsG_set_local Ln n c (length Ln - 1 - p) Hx Hr). unfold slot. rewrite Ef. reflexivity.
+    + intros x Hx'. exact Hx'.
+    + intros T b. cbn [code9 stmt_gnames9]. unfold set_slot, slot. rewrite Ef. reflexivity.
+Qed.
+
+Lemma emitsG_top ret Ln c : top9 sg ret Ln c = true ->
+  emitsL Ln (names_next Ln c) (gd FT (process_card c)) (stmt_gnames9 Ln c) (fun T b => code9 T FT Ln b c).
+Proof.
+  intros Hc. destruct c; try (apply (emitsG_stmt ret); exact Hc).
+  cbn [top9] in Hc. apply andb_true_iff in Hc. destruct Hc as [Hx Hr].
+  cbn [names_next stmt_gnames9 code9]. unfold set_slot, slot, lmem. destruct (find_first name Ln) as [p|] eqn:Ef.
+  - apply (emitsG_set_local Ln name c (length Ln - 1 - p) Hx Hr). unfold slot. rewrite Ef. reflexivity.
+  - apply (emitsG_declare Ln name c Hx Hr). unfold lmem. rewrite Ef. reflexivity.
+Qed.
+
+Lemma emitsG_cards ret cards : forall Ln ic, cards9 sg ret Ln cards = true ->
+  emitsL Ln (names_end Ln cards) (gd FT (process_cards cards ic)) (top_gnames9 Ln cards)
+         (fun T b => code_top9 T FT Ln b cards).
+Proof.
+  induction cards as [|c r IH]; intros Ln ic Hc; cbn [process_cards names_end top_gnames9].
+  - eapply emitsL_le9; [|apply le9_gd]. apply emitsL_nop. intros s s' E. injection E as <-. repeat split.
+  - cbn [cards9] in Hc. apply andb_true_iff in Hc. destruct Hc as [Hc Hr].
+    eapply emitsL_le9; cycle 1.
+    { apply le9_seq; [apply le9_gd | apply pj_pop_sub|]. apply le9_seq; [apply le9_gd | apply pj_push_sub|].
+      apply le9_seq; [apply le9_refl | apply pj_card | apply le9_refl]. }
+    intros s s' Hcx E.
+    pose proof (emitsL_seq_gen Ln Ln _ _ _ _ _ _ _ (emitsL_nop Ln _ keepL_pop_sub)
+                 (emitsL_seq_gen Ln Ln _ _ _ _ _ _ _ (emitsL_nop Ln _ (keepL_push_sub ic))
+                    (emitsL_seq_gen Ln _ _ _ _ _ _ _ _ (emitsG_top ret Ln c Hc) (IH (names_next Ln c) (ic + 1) Hr)))) as H.
+    destruct (H s s' Hcx E) as (A & B & C & D). split; [exact A|]. split; [exact B|]. split.
+    + intros n Hn. apply C. exact Hn.
+    + intros T HT. rewrite (D T HT). cbn [code_top9 app bytes]. rewrite ?N.add_0_r. reflexivity.
+Qed.
+
+End Cards.
